@@ -180,9 +180,13 @@ func zzRecordShell(ctx context.Context, opts *execext.RunCommandOptions) error {
 	return nil
 }
 
-type zzLineSink struct{ lines []string }
+type zzLineSink struct {
+	lines []string
+	raw   string // everything written, as it came (the real shell writes a line in pieces)
+}
 
 func (s *zzLineSink) Write(p []byte) (int, error) {
+	s.raw += string(p)
 	s.lines = append(s.lines, strings.TrimSpace(string(p)))
 	return len(p), nil
 }
